@@ -245,3 +245,42 @@ Proof.
         rewrite (unmark_text v fuel (title_markup ops) Hv Hf).
         rewrite IH by lia. cbn [option_map fst snd]. rewrite !html_escape_app'. reflexivity.
 Qed.
+
+(* ------------------------------------------------------------------ the diffable fragment *)
+Fixpoint has_insdel (n : snode) : bool :=
+  match n with
+  | SText _ => false
+  | SEl name _ _ cs => is_insdel name || existsb has_insdel cs
+  end.
+
+(* after unwrapping no <ins>/<del> of the source page is left, at any depth *)
+Theorem unwrap_removes_insdel n : forallb (fun m => negb (has_insdel m)) (unwrap_insdel n) = true.
+Proof.
+  induction n as [s|name a v cs IH] using snode_ind'; [reflexivity|]. cbn [unwrap_insdel].
+  assert (Hcs : forallb (fun m => negb (has_insdel m)) (flat_map unwrap_insdel cs) = true).
+  { induction cs as [|c cs IHcs]; [reflexivity|]. inversion IH as [|? ? Hc Hcs]; subst. cbn [flat_map].
+    rewrite forallb_app, Hc. cbn [andb]. apply IHcs, Hcs. }
+  destruct (is_insdel name) eqn:E; [exact Hcs|]. cbn [forallb has_insdel]. rewrite E. cbn [orb].
+  rewrite andb_true_r. apply negb_true_iff.
+  destruct (existsb has_insdel (flat_map unwrap_insdel cs)) eqn:X; [|reflexivity].
+  apply existsb_exists in X as [m [Hin Hm]]. rewrite forallb_forall in Hcs. specialize (Hcs m Hin). rewrite Hm in Hcs. discriminate Hcs.
+Qed.
+
+(* unwrapping keeps every text node, in order *)
+Fixpoint texts (n : snode) : list str :=
+  match n with SText s => [s] | SEl _ _ _ cs => flat_map texts cs end.
+
+Theorem unwrap_keeps_texts n : flat_map texts (unwrap_insdel n) = texts n.
+Proof.
+  induction n as [s|name a v cs IH] using snode_ind'; [reflexivity|]. cbn [unwrap_insdel texts].
+  assert (Hcs : flat_map texts (flat_map unwrap_insdel cs) = flat_map texts cs).
+  { induction cs as [|c cs IHcs]; [reflexivity|]. inversion IH as [|? ? Hc Hcs]; subst. cbn [flat_map].
+    rewrite flat_map_app, Hc, (IHcs Hcs). reflexivity. }
+  destruct (is_insdel name); [exact Hcs|]. cbn [flat_map texts]. rewrite app_nil_r. exact Hcs.
+Qed.
+
+(* a text node that sits directly in <body> reaches the tokeniser escaped: it cannot open a tag *)
+Theorem fragment_body_text_escaped s rest :
+  diffable_fragment (SText s :: rest) = html_escape false s ++ diffable_fragment rest /\
+  ~ In 60%N (html_escape false s).
+Proof. split; [reflexivity|exact (proj1 (escape_no_angle false s))]. Qed.
